@@ -838,3 +838,7 @@ CORPUS += [
     V("C18", "center-sampler-half-width-again", "rl4co/envs/common/utils.py", "Uniform(low=(high + low) / 2, high=(high + low) / 2)", "Uniform(low=(high - low) / 2, high=(high - low) / 2)", "C18.b"),
     V("C18", "eq-center-sampler-reassociated", "rl4co/envs/common/utils.py", "Uniform(low=(high + low) / 2, high=(high + low) / 2)", "Uniform(low=low + (high - low) / 2, high=low + (high - low) / 2)", None),
 ]
+
+CORPUS += [
+    V("C18", "cvrp-demand-sampler-unused", R + "cvrp/generator.py", "        demand = self.demand_sampler.sample((*batch_size, self.num_loc))", "        demand = torch.rand(*batch_size, self.num_loc) * 9", "C18.b"),
+]
